@@ -109,10 +109,22 @@ def main():
     pre_info = None
     if pre:
         pre_info = pre(log)          # e.g. the C18 translator regenerates Generated/*.lean
-    ok, out, dt_lake = vlib.lake_build([module, "rmdrv"] + spec.get("extra_targets", []), log)
+    ok, out, dt_lake = vlib.lake_build([module, "rmdrv"], log)
     thms = vlib.theorems_in(module.replace(".", "/") + ".lean")
+    # modules whose theorems are about definitions regenerated from /repo (bridging lemmas): built separately so that
+    # a failure names the bridge and leaves the theorems about the hand-written model checked
+    extra_ok, extra_broken, failed_thms = [], None, []
     for extra in spec.get("extra_theorem_modules", []):
-        thms += vlib.theorems_in(extra.replace(".", "/") + ".lean")
+        okx, outx, dtx = vlib.lake_build([extra], log)
+        dt_lake += dtx
+        ethms = vlib.theorems_in(extra.replace(".", "/") + ".lean")
+        if okx:
+            extra_ok.append(extra); thms += ethms
+        else:
+            errs = "\n".join(l for l in outx.splitlines() if "error" in l.lower())[:2500]
+            failed_thms += ethms
+            extra_broken = (extra_broken or "") + f"bridge module {extra} no longer checks against the definitions regenerated from /repo ({len(ethms)} lemmas: {', '.join(ethms[:8])}):\n{errs}\n"
+            log(outx[-2500:])
     proof_broken = None
     discharged, axioms_used = 0, set()
     if not ok:
@@ -125,10 +137,12 @@ def main():
             sys.exit(2)
     else:
         closure = vlib.lean_closure(module)
+        for extra in extra_ok:
+            closure.update(vlib.lean_closure(extra))
         hits = vlib.forbidden_tokens(closure.values())
         if hits:
             proof_broken = "forbidden tokens in the proof closure: " + "; ".join(hits[:5])
-        ax, axout = vlib.audit_axioms(module, thms, log)
+        ax, axout = vlib.audit_axioms([module] + extra_ok, thms, log)
         for t, l in ax.items():
             if l is None:
                 proof_broken = (proof_broken or "") + f" theorem {t} not found in the compiled environment;"
@@ -137,20 +151,45 @@ def main():
             else:
                 discharged += 1
                 axioms_used |= set(l)
+        if tier == "thorough":
+            # independent re-check of the compiled theorems by the toolchain's external kernel checker
+            for m_ in [module] + extra_ok:
+                lc = vlib.sh(["lake", "env", "leanchecker", m_], cwd=vlib.LEAN)
+                if lc.returncode != 0:
+                    proof_broken = (proof_broken or "") + f" leanchecker rejects {m_}: {lc.stdout[-400:]};"
+                else:
+                    notes.append(f"leanchecker accepted {m_}")
         missing = [t for t in spec.get("required_theorems", []) if t not in thms]
         if missing:
             proof_broken = (proof_broken or "") + f" required theorems missing from Props: {missing};"
+    if extra_broken:
+        proof_broken = (proof_broken or "") + " " + extra_broken
     log(f"[{pid}] proof side: {len(thms)} theorems, {discharged} discharged, lake {dt_lake:.1f}s"
         + (f"  BROKEN: {proof_broken[:300]}" if proof_broken else ""))
 
     # ---- 2. code side: rebuild from /repo's working tree, run harness + driver ---------------
     try:
         configs = spec["configs"](tier, seed)
+        # corpus first: inputs on which a past (seeded or repaired) defect showed, regenerated by (config, seed, index)
+        corpus_file = os.path.join(VERIF, "corpus", pid + ".json")
+        if os.path.exists(corpus_file) and not a.replay:
+            seen_c = set()
+            for n, e in enumerate(json.load(open(corpus_file))):
+                c = dict(e["config"])
+                kk = (c["tag"], e["seed"], e["case_index"])
+                if kk in seen_c or (e["case_index"] < 0 and e["seed"] == seed and any(x["tag"] == c["tag"] for x in configs)):
+                    continue
+                seen_c.add(kk)
+                c["tag"] = f"corpus{n}-{c['tag']}"
+                c["env"] = dict(c.get("env", {}), VERIF_SEED=e["seed"], VERIF_ONLY=e["case_index"])
+                c["corpus"] = e.get("origin", "")
+                configs.append(c)
+            configs.sort(key=lambda c: 0 if "corpus" in c else 1)
         exes, key = {}, None
         for asan in sorted({bool(c.get("asan", spec.get("asan"))) for c in configs}):
             libdir, key, dt_lib = vlib.build_repo(log, asan=asan)
-            for h in sorted({c["harness"] for c in configs if bool(c.get("asan", spec.get("asan"))) == asan}):
-                exes[(h, asan)] = vlib.build_harness(h, libdir, log, extra=spec.get("harness_flags", "") + (" " + vlib.ASAN if asan else ""))
+            for h, cxx in sorted({(c["harness"], c.get("cxx", "")) for c in configs if bool(c.get("asan", spec.get("asan"))) == asan}):
+                exes[(h, asan, cxx)] = vlib.build_harness(h, libdir, log, extra=spec.get("harness_flags", "") + (" " + cxx if cxx else "") + (" " + vlib.ASAN if asan else ""))
     except vlib.BuildError as e:
         log(str(e))
         log(f"[{pid}] cannot build /repo's working tree or the harness against it")
@@ -172,7 +211,7 @@ def main():
                 if c["np"] <= budget or not running:
                     pending.remove(c)
                     budget -= c["np"]
-                    fut = ex.submit(run_config, c, exes[(c["harness"], bool(c.get("asan", spec.get("asan"))))], pid, tier, seed, workdir)
+                    fut = ex.submit(run_config, c, exes[(c["harness"], bool(c.get("asan", spec.get("asan"))), c.get("cxx", ""))], pid, tier, seed, workdir)
                     running[fut] = c
                     started = True
             done, _ = cf.wait(list(running), return_when=cf.FIRST_COMPLETED)
@@ -289,7 +328,7 @@ def main():
     ev = {
         "property_id": pid, "tier": tier, "seed": seed, "level": "proof",
         "coverage": {
-            "obligations": max(len(thms), 1), "discharged": discharged,
+            "obligations": max(len(thms) + len(failed_thms), 1), "discharged": discharged,
             "checker_cmd": f"cd lean && lake build {module} && lake env lean <audit: #print axioms of every theorem in {module}>",
             "trusted_base": ["Lean 4.33.0 kernel", "axioms: " + (", ".join(sorted(axioms_used)) or "none"),
                              "Mathlib v4.33.0 (single modules)" ] + spec.get("trusted", []),
